@@ -311,6 +311,16 @@ CLAIMED = {
              "visibilities in .symtab are checked on real outputs (st_value must point at the symbol's marker bytes; the rest as ld writes it), as is the absence of .symtab under -s.",
         technique="Coq proof (exhaustive case analysis lifted to all symbols) + real .dynsym/.symtab compared with the model and with GNU ld",
         design_ref="DESIGN.md §3 C31"),
+    "C38": dict(
+        text="S1: a process image (executable first, libraries in load order), the dynamic loader as first-match lookup over the modules' dynamic symbol tables, and for one symbol what wild "
+             "writes into the executable's table: its own definition, a copy-relocated definition for a directly referenced object of a library, an undefined entry carrying the PLT address for a "
+             "directly referenced function, a plain import otherwise. Theorems: every module observes the same address for every symbol, and one exists; hence a store through one view is seen "
+             "through every other; refuted if the executable binds directly without announcing the address.",
+        note="Partial: symbol versions, dlopen scopes and protected visibility are outside the model. Tie: generated three-module C programs sharing functions and objects in both directions, "
+             "non-PIC, PIE and -fno-plt, lazy and -z now, linked by wild and RUN: each module reports the address it sees and the value it reads after another wrote; the executable's .dynsym "
+             "entries are compared with the model's exe_entry.",
+        technique="Coq proof (first-match lookup with the executable first) + generated multi-module programs linked by wild and executed",
+        design_ref="DESIGN.md §3 C38"),
     "C10": dict(
         text="S1: Gallina model of what wild writes for unwinding (an FDE is kept iff the section its pc-begin points into was loaded and is not empty; one search-table entry per kept FDE with "
              "hdr-relative signed start and FDE pointer; the table sorted by the signed start) and of the consumer (the last entry with start <= pc, then the range check — what libgcc's binary "
